@@ -74,6 +74,16 @@ func ZZ_C13_will_race(a []int) {
 	zzHammer([]ControlPacket{c, w})
 }
 
+// ZZ_C13_willmod_race: same arguments as ZZ_C13_willmod.
+func ZZ_C13_willmod_race(a []int) {
+	abs := zzGen(zzShapeOf(a[1:]))
+	w := zzBuildWill(abs)
+	c := NewConnect()
+	c.SetWill(w)
+	zzWillMod(w, a[0])
+	zzHammer([]ControlPacket{c, w})
+}
+
 // ZZ_C13_read_race: ReadPacket on distinct private streams from 8 goroutines.
 func ZZ_C13_read_race(a []int) {
 	n := a[1]
